@@ -463,14 +463,19 @@ def _tuplify(x):
     return tuple(_tuplify(y) for y in x) if isinstance(x, (list, tuple)) else x
 
 
+def _repo():
+    from harness import core
+    return core.REPO
+
+
 def solo_table(variant):
     """answers of one freshly built application per request kind, computed in a fresh interpreter in which no other
     application was ever built (what another application leaves behind *at build time* must not matter either)"""
     import json
     import subprocess
-    code = ("import sys, json; sys.path.insert(0, %r); sys.path.insert(0, '/repo'); from harness import c17; "
+    code = ("import sys, json; sys.path.insert(0, %r); sys.path.insert(0, %r); from harness import c17; "
             "s = c17.frozen(); print('TABLE ' + json.dumps({k: c17.run_request(c17.build_app(%d), k) for k in c17.KIND_NAMES}))"
-            % (os.path.dirname(HERE), variant))
+            % (os.path.dirname(HERE), _repo(), variant))
     out = subprocess.run([sys.executable, "-c", code], capture_output=True, text=True, timeout=300,
                          env=dict(os.environ, VERIF_C17_CHILD="1")).stdout
     for line in out.splitlines():
@@ -728,8 +733,8 @@ def oracle(case):
     res = oracle_here(case)
     if res and not os.environ.get("VERIF_C17_CHILD") and _served[0] > 1:
         import subprocess
-        code = ("import sys; sys.path.insert(0, %r); sys.path.insert(0, '/repo'); from harness import c17; "
-                "r = c17.oracle_here(%r); print('REPRO' if r else 'CLEAN')" % (os.path.dirname(HERE), case))
+        code = ("import sys; sys.path.insert(0, %r); sys.path.insert(0, %r); from harness import c17; "
+                "r = c17.oracle_here(%r); print('REPRO' if r else 'CLEAN')" % (os.path.dirname(HERE), _repo(), case))
         try:
             out = subprocess.run([sys.executable, "-c", code], capture_output=True, text=True, timeout=120,
                                  env=dict(os.environ, VERIF_C17_CHILD="1")).stdout
